@@ -203,7 +203,7 @@ type niInst struct {
 	unitMS   int
 	sigName  string // the sigma protocol's own name (the Fischlin compiler selects rho by it)
 	noRename bool   // the protocol name is fixed inside the library (no "other protocol name" edit)
-	altNames []string
+	altNames func() []string // names of the statement variants (lazy: building them costs encryptions)
 	// compileErr reports the compiler constructor's refusal (nil = admitted)
 	compileErr func(c compiler.Name) error
 	// soundness parameters for the refusal oracle
@@ -237,9 +237,13 @@ func (c *sigCase[X, W, A, S, Z]) pick(sel stmtSel) X {
 
 func (c *sigCase[X, W, A, S, Z]) ni() *niInst {
 	n := &niInst{name: c.name, heavy: c.heavy, unitMS: max(c.unitMS, 1)}
-	for _, a := range c.alts() {
-		n.altNames = append(n.altNames, a.name)
-	}
+	n.altNames = sync.OnceValue(func() []string {
+		var out []string
+		for _, a := range c.alts() {
+			out = append(out, a.name)
+		}
+		return out
+	})
 	p0 := c.mk(stream(c.name + "/params"))
 	n.soundnessError, n.specialSoundness, n.challengeLen = p0.SoundnessError(), p0.SpecialSoundness(), p0.GetChallengeBytesLength()
 	n.sigName = string(p0.Name())
